@@ -184,7 +184,10 @@ class AddField(BaseModelFieldMutation):
             field.m2m_reverse_name = \
                 partial(field._get_m2m_reverse_attr, related, 'column')
 
-        mutator.add_sql(self, mutator.evolver.add_m2m_table(model, field))
+        # The new table is independent of the model's own table, so this
+        # must not split up a batch of changes to the model's table.
+        mutator.add_sql(self, mutator.evolver.add_m2m_table(model, field),
+                        mergeable=True)
 
     def _create_field(self, mutator, parent_model):
         """Create a new field to add to the model.
